@@ -324,6 +324,22 @@ func c04Session(t testing.TB, tr *tracer, f c04Fault, variant int) (int, int) {
 	pr.mu.Unlock()
 	mu.Lock()
 	for _, o := range ops {
+		if o.op == "ReadDir" && o.returned && lost {
+			// a multi-request operation: the listing is complete only if the READDIR answered with EOF (the peer's third) was
+			// received completely before the stream ended; otherwise the call was outstanding at the loss and must fail
+			n := 0
+			for _, r := range reqs {
+				if r.Typ == tReaddir && r.Handle == peerDirHandle(o.arg) && !r.Bad {
+					if end, answered := ends[r.ID]; answered && end <= f.at {
+						n++
+					}
+				}
+			}
+			if n < 3 {
+				tr.emit("Judge", kv{"g": o.g, "n": o.n, "op": o.op, "err": errStr(o.err), "mustok": false, "musterr": true})
+			}
+			continue
+		}
 		if o.typ == 0 || !o.returned {
 			continue
 		}
